@@ -297,7 +297,7 @@ def parse_groups(line):
     return groups
 
 
-def run_script(bus, script, groups, canaries, blast_spec=None, noread=()):
+def run_script(bus, script, groups, canaries, blast_spec=None, noread=(), strict=False):
     """script: list of ("C", c) / ("W", c, bytes) / ("X", c) / ("S", ms); groups: parse_groups(model line);
     canaries: list of byte strings planted in messages.  Returns dict(problems=[(kind, text)], observed=[...], stats)"""
     socks, names, gone_expected = {}, {}, set()
@@ -332,7 +332,7 @@ def run_script(bus, script, groups, canaries, blast_spec=None, noread=()):
         elif kind == "S":
             time.sleep(ev[1] / 1000.0)
         # ---- what the model expects of this step
-        exp_events, reads = [], set()
+        exp_events, reads, exp_noreply = [], set(), []
         for tag, toks in grp:
             if tag[0] == "R":
                 reads.add(int(tag[1:]))
@@ -351,6 +351,10 @@ def run_script(bus, script, groups, canaries, blast_spec=None, noread=()):
                     stats["hi"] += 1
                 elif p[0] == "bye":
                     exp_events.append(("bye", c))
+                elif p[0] == "noc" and strict:
+                    exp_events.append(("noc", (bytes.fromhex(p[2]).decode("latin-1"), c, int(p[3]))))
+                elif p[0] == "noreply" and strict:
+                    exp_noreply.append((c, int(p[2])))
                 elif p[0] == "gone":
                     gone_expected.add(c)
                     stats["gone"] += 1
@@ -374,11 +378,17 @@ def run_script(bus, script, groups, canaries, blast_spec=None, noread=()):
         if lat > LAT_BOUND:
             problem("violation", "%s: bystander round trip took %.3f s (bound %.1f s)" % (where, lat, LAT_BOUND))
         # ---- what the monitor was shown
-        got_events = []
+        got_events, got_noreply = [], []
+        def ident(n):
+            return 0 if n == "" else {v: k for k, v in names.items()}.get(n, -1)
         for m in mon:
             snd = m.fields.get(F_SENDER)
             if snd == DRIVER:
-                if m.mtype == SIGNAL and m.fields.get(F_MEMBER) == "NameOwnerChanged" and len(m.body) == 3 and m.body[0].startswith(":"):
+                if strict and m.mtype == ERROR and m.fields.get(4) == "org.freedesktop.DBus.Error.NoReply":
+                    got_noreply.append((m.fields.get(F_DESTINATION), m.fields.get(F_REPLY_SERIAL)))
+                elif strict and m.mtype == SIGNAL and m.fields.get(F_MEMBER) == "NameOwnerChanged" and len(m.body) == 3 and not m.body[0].startswith(":"):
+                    got_events.append(("noc", tuple(m.body)))
+                elif m.mtype == SIGNAL and m.fields.get(F_MEMBER) == "NameOwnerChanged" and len(m.body) == 3 and m.body[0].startswith(":"):
                     if m.body[1] == "" and m.body[0] not in bus.own:
                         got_events.append(("hi", m.body[0]))
                     elif m.body[2] == "" and m.body[0] not in bus.own:
@@ -387,7 +397,7 @@ def run_script(bus, script, groups, canaries, blast_spec=None, noread=()):
                 pass
             else:
                 got_events.append(("seen", header_key(m.raw)))
-        observed.append(["%s:%s" % (k, v if k != "seen" else "%d/%s" % (v[3], v[5][:16])) for k, v in got_events])
+        observed.append(["%s:%s" % (k, v if k != "seen" else "%d/%s" % (v[3], v[5][:16])) for k, v in got_events] + ["noreply:%s:%s" % x for x in got_noreply])
         ok_seq = len(got_events) == len(exp_events)
         if ok_seq:
             for (gk, gv), (ek, evv) in zip(got_events, exp_events):
@@ -395,6 +405,8 @@ def run_script(bus, script, groups, canaries, blast_spec=None, noread=()):
                     ok_seq = False
                 elif gk == "seen":
                     ok_seq = ok_seq and gv == evv
+                elif gk == "noc":
+                    ok_seq = ok_seq and (gv[0], ident(gv[1]), ident(gv[2])) == evv
                 elif gk == "hi":
                     names[evv] = gv
                 elif gk == "bye":
@@ -408,6 +420,11 @@ def run_script(bus, script, groups, canaries, blast_spec=None, noread=()):
                         % (where, len(extra_seen), [g[1][3] for g in extra_seen][:6], exp_s[:12], got_s[:12]))
             else:
                 problem("mismatch", "%s: monitor trace differs from the model: expected %s got %s" % (where, exp_s[:14], got_s[:14]))
+        got_noreply = [(ident(d), sr) for d, sr in got_noreply]
+        if strict and sorted(got_noreply) != sorted(exp_noreply):
+            problem("violation",
+                    "%s: NoReply errors sent by the bus (caller connection, serial) %s, the model says %s (a NoReply for a connection that is gone, or for a call that is not outstanding, must never be sent)"
+                    % (where, sorted(got_noreply), sorted(exp_noreply)))
         # ---- canaries
         for m in mon + by:
             raw = getattr(m, "raw", b"")
